@@ -472,8 +472,15 @@ def gen_cases(tier, rng):
             if v is not None and (not q or rng.random() < 0.5):
                 cases += _canon_cases(how, v, orig=r, src=src, backends=(rng.choice(BACKENDS),))
 
+    # corpus reactions with a product atom that has no reactant partner (a released proton): the repaired path on real data
+    if q:
+        for s, i, r in [x for x in ec if x[1] in (132, 186)][:1]:
+            src = "%s#%d" % (s, i)
+            cases += _canon_cases("corpus", r, src=src, backends=("wl",))
+            cases += _canon_cases("renum", R.renumber_maps(r, rng), orig=r, src=src)
+
     # ---- validator
-    chosen = (rng.sample(us, 22) + rng.sample(ec, 10)) if q else corp
+    chosen = (rng.sample(us, 18) + rng.sample(ec, 8)) if q else corp
     for n_, (s, i, r) in enumerate(chosen):
         src = "%s#%d" % (s, i)
         cases.append(dict(kind="valid-renum", mapped=R.renumber_maps(r, rng), truth=r, src=src))
@@ -492,7 +499,7 @@ def gen_cases(tier, rng):
             cases.append(dict(kind="valid-cross", mapped=chosen[n_ + 1][2], truth=r, src=src))
 
     # ---- balance
-    chosen = (rng.sample(us, 10) + rng.sample(ec, 16)) if q else corp
+    chosen = (rng.sample(us, 7) + rng.sample(ec, 11)) if q else corp
     for s, i, r in chosen:
         src = "%s#%d" % (s, i)
         cases.append(dict(kind="bal-corpus", rsmi=r, src=src))
